@@ -77,6 +77,16 @@ func (g *G) intTok(n int) { g.B.Raw(strconv.Itoa(n), CNum, "integer") }
 
 func (g *G) durTok(d time.Duration) { g.B.Raw(g.DurSpell(d), CDur, "duration") }
 
+// limitTok writes a write-limit duration; no limit (zero) may be spelled INF.
+func (g *G) limitTok(d time.Duration) {
+	if d == 0 && !g.B.Plain && g.Rg.Bool() {
+		g.B.Kw("INF")
+		g.feat("limit.inf")
+		return
+	}
+	g.durTok(d)
+}
+
 // anyDur is posDur, or (outside Simple mode, one time in eight) zero.
 func (g *G) anyDur() time.Duration {
 	if !g.Opt.Simple && g.Rg.P(0.125) {
@@ -338,6 +348,14 @@ func (g *G) dimensions(o dimOpts) influxql.Dimensions {
 				}
 				c.Args = append(c.Args, &influxql.DurationLiteral{Val: off})
 				g.feat("dim.time-offset")
+			} else if !g.Opt.Simple && g.Rg.P(0.12) {
+				// the offset given as an instant: now() or a time string
+				if g.Rg.Bool() {
+					c.Args = append(c.Args, &influxql.Call{Name: "now"})
+				} else {
+					c.Args = append(c.Args, &influxql.StringLiteral{Val: g.Rg.Pick("2000-01-01T00:00:00Z", "2000-01-01", "2016-02-29 12:30:00")})
+				}
+				g.feat("dim.time-offset-instant")
 			}
 			g.Emit(c)
 			out = append(out, &influxql.Dimension{Expr: c})
@@ -759,14 +777,14 @@ func init() {
 			with()
 			d := g.anyDur()
 			b.Kw("FUTURE LIMIT")
-			g.durTok(d)
+			g.limitTok(d)
 			s.FutureWriteLimit = &d
 		}
 		if on("PAST") {
 			with()
 			d := g.anyDur()
 			b.Kw("PAST LIMIT")
-			g.durTok(d)
+			g.limitTok(d)
 			s.PastWriteLimit = &d
 		}
 		if on("NAME") {
@@ -806,12 +824,12 @@ func init() {
 		if on("FUTURE") {
 			s.FutureWriteLimit = g.anyDur()
 			b.Kw("FUTURE LIMIT")
-			g.durTok(s.FutureWriteLimit)
+			g.limitTok(s.FutureWriteLimit)
 		}
 		if on("PAST") {
 			s.PastWriteLimit = g.anyDur()
 			b.Kw("PAST LIMIT")
-			g.durTok(s.PastWriteLimit)
+			g.limitTok(s.PastWriteLimit)
 		}
 		return s
 	})
@@ -869,14 +887,14 @@ func init() {
 				s.Default = true
 				b.Kw("DEFAULT")
 			case "FUTURE":
-				d := g.posDur()
+				d := g.anyDur()
 				b.Kw("FUTURE LIMIT")
-				g.durTok(d)
+				g.limitTok(d)
 				s.FutureWriteLimit = &d
 			case "PAST":
-				d := g.posDur()
+				d := g.anyDur()
 				b.Kw("PAST LIMIT")
-				g.durTok(d)
+				g.limitTok(d)
 				s.PastWriteLimit = &d
 			}
 		}
